@@ -327,15 +327,50 @@ impl GraphDatabaseService {
         let (send, mut recv) = mpsc::channel::<(String, Option<Parameters>)>(2);
         let (send_res, recv_res) = mpsc::channel::<Result<MutationQuery>>(2);
         let dbsender = self.sender.clone();
+        //the results pass through this task: it knows when the last mutation of the stream has been processed
+        let (inner_send, mut inner_recv) = mpsc::channel::<Result<MutationQuery>>(2);
         tokio::spawn(async move {
-            while let Some((mutate, param_opt)) = recv.recv().await {
-                let msg = DbMessage::MutateStream(
-                    mutate,
-                    param_opt.unwrap_or_default(),
-                    send_res.clone(),
-                );
-                let _ = dbsender.send(msg).await;
+            let mut inner_send = Some(inner_send);
+            loop {
+                tokio::select! {
+                    msg = recv.recv(), if inner_send.is_some() => {
+                        match msg {
+                            Some((mutate, param_opt)) => {
+                                let msg = DbMessage::MutateStream(
+                                    mutate,
+                                    param_opt.unwrap_or_default(),
+                                    inner_send.as_ref().unwrap().clone(),
+                                );
+                                let submit = dbsender.send(msg);
+                                tokio::pin!(submit);
+                                //results are forwarded while the mutation waits to be accepted
+                                loop {
+                                    tokio::select! {
+                                        _ = &mut submit => break,
+                                        res = inner_recv.recv() => {
+                                            if let Some(res) = res {
+                                                let _ = send_res.send(res).await;
+                                            }
+                                        }
+                                    }
+                                }
+                            }
+                            //the stream is closed: only the mutations still in progress hold a sender
+                            None => inner_send = None,
+                        }
+                    }
+                    res = inner_recv.recv() => {
+                        match res {
+                            Some(res) => {
+                                let _ = send_res.send(res).await;
+                            }
+                            //every mutation of the stream has been processed
+                            None => break,
+                        }
+                    }
+                }
             }
+            //the daily log is computed once the mutations are written, not while they are in progress
             let _ = dbsender.send(DbMessage::ComputeDailyLog()).await;
         });
         (send, recv_res)
